@@ -105,6 +105,15 @@ func protoBases() []NamedBase {
 				mfld("color", tInt(), "F", 2)),
 			ctor("rectangle2D", "Rectangle2D", 3, nil, fld("r", tRef("rectangle", true, aN(3)))),
 		}},
+		// service2.counterSet-like constructor with two # template arguments and one with a # argument plus a local
+		// field mask; the use sites pass constants: a bit set by the constant of ONE argument is free in the OTHER mask
+		{"proto/twoMasks", Schema{
+			ctor("counterSet", "CounterSet", 1, []string{"m", "k"}, mfld("x", tInt(), "m", 0), mfld("y", tInt(), "k", 1)),
+			ctor("record", "Record", 2, []string{"k"}, fld("f", tNat()), mfld("z", tInt(), "f", 0), mfld("w", tInt(), "k", 0)),
+			ctor("deltaSet", "DeltaSet", 3, nil, fld("a", tRef("CounterSet", true, aN(0), aN(4))),
+				fld("b", tRef("CounterSet", false, aN(1), aN(2))), fld("r", tRef("Record", true, aN(5)))),
+			fn("getDelta", 4, tRef("CounterSet", false, aN(8), aN(2)), fld("id", tInt())),
+		}},
 		// implicitly tagged combinators of prototype.tl: service4.object (used bare only, here with a mask),
 		// service1.Value (union, boxed), integer (bare in benchObject), tasks.taskInfo-like holder, service1.get
 		{"proto/implicitTags", Schema{
